@@ -322,7 +322,7 @@ Section Thread.
     assert (length rem = length (map fst b)) as Hlen' by (rewrite map_length; exact Hlen).
     pose proof (resolved_ok_all T hc _ _ _ _ R Hn Hlen') as F1.
     assert (blob_ok w' (forget_replaced hc b ress)) as Hb1.
-    { apply InvProofs.forget_replaced_ok; [apply Hinv'|]. exact (blob_steps T teqb hc teqb_spec _ _ _ Hinv Hs Hb). }
+    { apply InvProofs.forget_replaced_ok; [exact teqb_spec|]. exact (blob_steps T teqb hc teqb_spec _ _ _ Hinv Hs Hb). }
     pose proof (current_tickets_hash T teqb hc _ _ _ Hb1 Ect) as F2.
     rewrite BuildFacts.forget_replaced_fst in F2.
     apply Forall2_map_r in F1.
@@ -416,7 +416,7 @@ Section Thread.
       pose proof (InvProofs.resolve_remembered_steps T teqb hc teqb_spec _ _ _ _ _ Hinv Hb Er) as Hs1.
       pose proof (inv_steps T teqb hc teqb_spec _ _ Hinv Hs1) as Hinv1.
       assert (blob_ok w1 (forget_replaced hc b ress)) as Hb1.
-      { apply InvProofs.forget_replaced_ok; [apply Hinv1|]. exact (blob_steps T teqb hc teqb_spec _ _ _ Hinv Hs1 Hb). }
+      { apply InvProofs.forget_replaced_ok; [exact teqb_spec|]. exact (blob_steps T teqb hc teqb_spec _ _ _ Hinv Hs1 Hb). }
       cbv zeta in H. destruct (needs_rebuild ress) eqn:En.
       + destruct (run_script w1 (script_lines cmd)) as [codes w2] eqn:Ers.
         destruct H as (-> & -> & H). rewrite Ers in H. cbn [fst snd] in H.
@@ -443,7 +443,7 @@ Section Thread.
       pose proof (InvProofs.resolve_fresh_steps T teqb hc teqb_spec _ _ _ _ Hinv Hb Er) as Hs1.
       pose proof (inv_steps T teqb hc teqb_spec _ _ Hinv Hs1) as Hinv1.
       assert (blob_ok w1 (forget_replaced hc b ress)) as Hb1.
-      { apply InvProofs.forget_replaced_ok; [apply Hinv1|]. exact (blob_steps T teqb hc teqb_spec _ _ _ Hinv Hs1 Hb). }
+      { apply InvProofs.forget_replaced_ok; [exact teqb_spec|]. exact (blob_steps T teqb hc teqb_spec _ _ _ Hinv Hs1 Hb). }
       apply resolve_fresh_frame in Er as [_ Eress].
       cbv zeta in H. destruct (needs_rebuild ress) eqn:En.
       + destruct (run_script w1 (script_lines cmd)) as [codes w2] eqn:Ers.
@@ -524,7 +524,7 @@ Section Thread.
     destruct (resolve_remembered_spec T teqb hc teqb_spec _ _ _ _ _ Hinv Hb Hnd Er) as (Fr & Hh & R).
     pose proof (resolved_ok_prefix _ _ _ _ R Hn) as F1.
     assert (blob_ok w' (forget_replaced hc b ress)) as Hb1.
-    { apply InvProofs.forget_replaced_ok; [apply Hinv'|]. exact (blob_steps T teqb hc teqb_spec _ _ _ Hinv Hs Hb). }
+    { apply InvProofs.forget_replaced_ok; [exact teqb_spec|]. exact (blob_steps T teqb hc teqb_spec _ _ _ Hinv Hs Hb). }
     pose proof (current_tickets_hash T teqb hc _ _ _ Hb1 Ect) as F2.
     rewrite BuildFacts.forget_replaced_fst in F2.
     assert (ts = map fs_t (firstn (length b) rem)) as ->.
